@@ -25,7 +25,7 @@ LEVEL = "exploration"
 REPS = {"quick": 1, "thorough": 10}
 RULE = ("20 coordinate systems x 2 flavors x NumPy shapes {(n,), (a,b), (a,b,c), (0,), (a,0)} x axis in {None, each axis, "
         "negative axes, tuples} x keepdims, and Awkward layouts {jagged with empty lists, with missing lists, depth 3} x "
-        "every valid axis x keepdims x mask_identity; integer-valued Cartesian storage compared exactly, everything else at "
+        "flat, missing elements, regular, one list, physical layout twins} x every valid axis (positive and negative) x keepdims x mask_identity; integer-valued Cartesian storage compared exactly, everything else at "
         "1e-9 of the scale. A cell is (reducer, backend, system, shape/layout, axis, options), non-trivial when the reduction "
         "returned and every Cartesian component was compared with the component-wise reduction of the object-backend values")
 ASSUMPTIONS = [
@@ -99,6 +99,20 @@ def _close(a, b, exact, scale):
     return ok, f"max diff {numpy.max(numpy.abs(a - b)) if a.size else 0}"
 
 
+def _masked_like(g, w):
+    """(g with every exact zero that stands where w is None replaced by None, how many were replaced)"""
+    changed = [0]
+
+    def rec(a, b):
+        if b is None and a is not None and not isinstance(a, list) and float(a) == 0.0:
+            changed[0] += 1
+            return None
+        if isinstance(a, list) and isinstance(b, list) and len(a) == len(b):
+            return [rec(x, y) for x, y in zip(a, b)]
+        return a
+    return rec(g, w), changed[0]
+
+
 def run_shard(spec, tier, seed):
     import awkward as ak
     from vector._methods import Momentum
@@ -123,6 +137,22 @@ def run_shard(spec, tier, seed):
             rows = _rows(r, system, n, integer=integer, zeros=not integer) if n else []
             arr = B.mk_numpy_cls(system, rows, mom, None) if n else B.mk_numpy_cls(system, [], mom)
             arr = arr.reshape(shape)
+            # the same values in a different memory layout (rotating with shape and system): a strided view of a wider
+            # array, Fortran order, big-endian columns
+            lay = ("plain", "strided", "fortran", "big-endian")[(len(shape) + len(sn) + int(integer)) % 4] if n else "plain"
+            if lay == "strided":
+                wide = numpy.zeros(shape + (2,), dtype=arr.dtype).view(numpy.ndarray)
+                wide[..., 0] = numpy.asarray(arr).view(numpy.ndarray)
+                wide[..., 1] = numpy.array(tuple(-9.75 for _ in arr.dtype.names), dtype=arr.dtype)
+                arr = wide[..., 0].view(type(arr))
+            elif lay == "fortran":
+                arr = numpy.asfortranarray(numpy.asarray(arr).view(numpy.ndarray)).view(type(arr))
+            elif lay == "big-endian":
+                be = numpy.zeros(shape, dtype=[(nm, ">f8") for nm in arr.dtype.names])
+                for nm in arr.dtype.names:
+                    be[nm] = numpy.asarray(arr).view(numpy.ndarray)[nm]
+                arr = be.view(type(arr))
+            res.count(f"numpy_layout:{lay}")
             cart = _cartesian(system, rows, mom)
             plain = {k: numpy.array(v, dtype=float).reshape(shape) for k, v in cart.items()}
             scale = max([1.0] + [abs(x) for v in cart.values() for x in v]) * max(n, 1)
@@ -187,14 +217,31 @@ def run_shard(spec, tier, seed):
         "missing_lists": [idx[:2], None, [], idx[2:]],
         "depth3": [[idx[:2], []], [], [idx[2:5], idx[5:]]],
         "all_empty": [[], []],
+        "flat": idx,
+        "missing_elements": [[idx[0], None, idx[1]], [None], [], idx[2:5] + [None], idx[5:]],
+        "regular": [idx[:4], idx[4:]],
+        "single_list": [idx],
     }
+    # physical twins of the jagged / depth-3 / missing-list layouts (awk.relayout): the kinds rotate with the system
+    salt = sum(map(ord, sn)) + (1 if mom else 0)
+    twin_plan = [(("jagged", "depth3", "missing_lists")[(salt + i) % 3], awk.PHYSICAL[(salt + 3 * i) % len(awk.PHYSICAL)])
+                 for i in range(3 if tier == "quick" else len(awk.PHYSICAL))]
+    for base, kind in twin_plan:
+        structs[f"{base}:physical={kind}"] = structs[base]
     for lname, struct in structs.items():
         rows = _rows(r, system, n, zeros=True)
         mom_eff = mom and any(B.MOM_SPELL[x] for x in R.field_names(system))
-        for route in ("zip", "with_name"):
+        for route in ("zip", "with_name", "Array"):
+            if route == "Array" and lname in ("all_empty",):
+                continue
             try:
-                arr = awk.build(system, rows, mom_eff, struct, route=route) if lname != "all_empty" else \
-                    awk.build(system, rows, mom_eff, [idx[:1], []], route=route)[[1, 1]]
+                arr = awk.build(system, rows, mom_eff, struct, route=route, spelling=salt % 3, regular=(lname == "regular")) \
+                    if lname != "all_empty" else awk.build(system, rows, mom_eff, [idx[:1], []], route=route)[[1, 1]]
+                if ":physical=" in lname:
+                    arr = awk.relayout(arr, lname.split("=")[1])
+                    if arr is None:
+                        res.count("twin_layout_not_applicable")
+                        continue
             except Exception as e:
                 res.inconc(f"cannot build awkward layout {lname}: {e!r}"[:200])
                 continue
@@ -204,9 +251,11 @@ def run_shard(spec, tier, seed):
                 plain = {k: ak.values_astype(ak.Array([[], []]), numpy.float64) for k in cart}
             else:
                 plain = {k: ak.Array(awk.map_struct(struct, lambda i: cart[k][i])) for k in cart}
+                if lname == "regular":
+                    plain = {k: ak.to_regular(v, axis=1) for k, v in plain.items()}
             scale = max([1.0] + [abs(x) for v in cart.values() for x in v]) * n
             depth = arr.layout.purelist_depth
-            for axis in list(range(depth)) + [-1, None]:
+            for axis in list(range(depth)) + [-k_ for k_ in range(1, depth + 1)] + [None]:
                 for keep, mask in itertools.product((False, True), (False, True)):
                     if axis is None and keep:
                         continue
@@ -235,6 +284,12 @@ def run_shard(spec, tier, seed):
                         got = getattr(out, k)
                         wl = ak.to_list(want) if isinstance(want, ak.Array) else want
                         gl = ak.to_list(got) if isinstance(got, ak.Array) else got
+                        if mask:
+                            # mask_identity=True is not part of the statement ("empty lists sum to the zero vector"):
+                            # where the plain reducer masks a sum over no valid element, None and zero are both accepted
+                            gl, n_masked = _masked_like(gl, wl)
+                            if n_masked:
+                                res.count("observed_not_judged:zero_where_plain_reducer_masks_identity")
                         if awk.skeleton(gl) != awk.skeleton(wl):
                             V("awkward-sum-structure-differs-from-component-sum", cell=cell, component=k, got=repr(gl)[:160], expected=repr(wl)[:160])
                             bad = True
@@ -248,7 +303,7 @@ def run_shard(spec, tier, seed):
                         if bad:
                             break
                     res.cell("ak.sum", cell)
-            for axis in list(range(depth)) + [-1, None]:
+            for axis in list(range(depth)) + [-k_ for k_ in range(1, depth + 1)] + [None]:
                 res.evaluations += 1
                 cell = f"{sn}|{fl}|{lname}|{route}|axis={axis}"
                 nzp = None
